@@ -97,6 +97,13 @@ def r_add_bad_name(api):
                 return None
             op['joliet_path'] = join(parent_of(op['joliet_path']), 'j' * 70)
             return ('too-long-joliet', op, True)
+        if which in ('joliet-empty', 'joliet-relative', 'udf-empty', 'udf-relative'):
+            # a second / third path that is not an absolute path at all (empty, or without the slash)
+            ns_ = which.split('-')[0]
+            if not getattr(cfg, ns_) or not op.get('iso_path'):
+                return None
+            op['%s_path' % ns_] = '' if which.endswith('empty') else 'rel%d' % g._u()
+            return ('%s-path-%s' % (ns_, which.split('-')[1]), op, True)
         if which == 'rr-missing':
             if not cfg.rr:
                 return None
@@ -330,6 +337,17 @@ def r_symlink(g, m, which):
     if which == 'half-rr':
         base.pop('rr_path')
         return ('rr-half-specified', base, False)
+    if which in ('joliet-empty', 'joliet-relative', 'udf-empty', 'udf-relative'):
+        ns_ = which.split('-')[0]
+        if not getattr(cfg, ns_):
+            return None
+        bad_ = '' if which.endswith('empty') else 'rel%d' % g._u()
+        if ns_ == 'joliet':
+            base['joliet_path'] = bad_
+        else:
+            base['udf_symlink_path'] = bad_
+            base['udf_target'] = 'target'
+        return ('iso-ok-%s-path-%s' % (ns_, which.split('-')[1]), base, True)
     if which == 'joliet-dup':
         if not cfg.joliet:
             return None
@@ -481,6 +499,11 @@ for api in ('add_fp', 'add_directory'):
         RECIPES.append((api, r_add_bad_name(api), w))
 for w in ('rr-too-long-reloc', 'iso-dup-reloc', 'reloc-name-taken'):
     RECIPES.append(('add_directory', r_add_bad_name('add_directory'), w))
+for api in ('add_fp', 'add_directory'):
+    for w in ('joliet-empty', 'joliet-relative', 'udf-empty', 'udf-relative'):
+        RECIPES.append((api, r_add_bad_name(api), w))
+for w in ('joliet-empty', 'joliet-relative', 'udf-empty', 'udf-relative'):
+    RECIPES.append(('add_symlink', r_symlink, w))
 for api in ('add_fp', 'add_directory'):
     RECIPES.append((api, r_add_bad_name(api), 'parent-is-file'))
 for w in ('missing', 'dir', 'boot', 'udf-missing'):
